@@ -91,21 +91,21 @@ theorem entry_no_register_residue (s : St) (pre args a : Nat) (evs : List Ev)
 /-- The second invariant (`Lemmas/C07Regs.lean`) at the exit of a bracket, for claimed builder
 lower bounds `ql tl` (`0 0`: no hypothesis on the execution; `seq str`: the execution never pops a
 builder of its caller, `SafeUntil`). -/
-theorem entry_bounds (s : St) (pre args a : Nat) (evs : List Ev) (ql tl : Nat)
+theorem entry_bounds (s : St) (pre args a : Nat) (evs : List Ev) (rl ql tl : Nat)
     (hhost : inLoop s = false) (hc : Consistent s.vm) (hw : s.vm.regs - s.vm.base + pre < 256)
-    (hql : ql ≤ s.vm.seq) (htl : tl ≤ s.vm.str)
-    (hsafe : SafeUntil ⟨s.vm.regs, s.vm.seq, s.vm.str, ql, tl⟩ s.conts.length evs
+    (hrl : rl ≤ s.vm.regs) (hql : ql ≤ s.vm.seq) (htl : tl ≤ s.vm.str)
+    (hsafe : SafeUntil ⟨rl, s.vm.seq, s.vm.str, ql, tl⟩ s.conts.length evs
       (enter pre args (.koto a) s))
     (hex : Exited s (runEntry pre args (.koto a) evs s)) :
     let s' := runEntry pre args (.koto a) evs s
-    s'.vm.regs = s.vm.regs ∧ s'.vm.seq ≤ s.vm.seq ∧ s'.vm.str ≤ s.vm.str ∧
+    (rl ≤ s'.vm.regs ∧ s'.vm.regs ≤ s.vm.regs) ∧ s'.vm.seq ≤ s.vm.seq ∧ s'.vm.str ≤ s.vm.str ∧
     min ql s.vm.seq ≤ s'.vm.seq ∧ min tl s.vm.str ≤ s'.vm.str := by
   intro s'
   have hr := hc.regs
   have hup := entry_no_register_residue s pre args a evs hhost hc (by omega) hex
   have hfr := (entry_clean_frames s pre args a evs hhost hc hex).1
   let x0 : Exit := .truncate (nextRegister s.vm)
-  let B : Bnd := ⟨s.vm.regs, s.vm.seq, s.vm.str, ql, tl⟩
+  let B : Bnd := ⟨rl, s.vm.seq, s.vm.str, ql, tl⟩
   have hw1 : (s.vm.regs - s.vm.base) % 256 = s.vm.regs - s.vm.base := Nat.mod_eq_of_lt (by omega)
   have hw2 : (s.vm.regs + pre - s.vm.base) % 256 = s.vm.regs + pre - s.vm.base :=
     Nat.mod_eq_of_lt (by omega)
@@ -146,8 +146,8 @@ theorem entry_bounds (s : St) (pre args a : Nat) (evs : List Ev) (ql tl : Nat)
   rw [hb] at hd
   simp only [nextRegister, hw1] at hd
   have hup' : (runUntil s.conts.length evs (enter pre args (.koto a) s)).vm.regs ≤ s.vm.regs := hup
-  refine ⟨?_, hd.2.1, hd.2.2.1, hd.2.2.2.1, hd.2.2.2.2⟩
-  show (runUntil s.conts.length evs (enter pre args (.koto a) s)).vm.regs = s.vm.regs
+  refine ⟨⟨?_, hup'⟩, hd.2.1, hd.2.2.1, hd.2.2.2.1, hd.2.2.2.2⟩
+  show rl ≤ (runUntil s.conts.length evs (enter pre args (.koto a) s)).vm.regs
   have := hd.1
   omega
 
@@ -212,30 +212,43 @@ theorem entry_bounds_frame (s : St) (pre args a : Nat) (evs : List Ev)
   · show (runUntil s.conts.length evs (enter pre args (.koto a) s)).vm.str = s.vm.str
     have := hd.2.2.1; have := hd.2.2.2.2; omega
 
+/-- a frame with an open `try` has `min_frame_registers ≥ registers.len()-at-entry`, at every state
+of the bracket (`SafeUntil` with no claim about builders). True for every real execution: a frame
+executes `NewFrame` first, and every frame of the bracket lies above the entry's registers. Needed
+for *equality* of `registers.len()` since fix 8f4d2e4 (the catch point resizes the value stack to
+`min_frame_registers`); `FrameSafeUntil` implies it. -/
+def TrySafe (s : St) (pre args a : Nat) (evs : List Ev) : Prop :=
+  SafeUntil ⟨s.vm.regs, s.vm.seq, s.vm.str, 0, 0⟩ s.conts.length evs (enter pre args (.koto a) s)
+
 /-- **entry_clean (registers)**: under the no-wrap hypothesis for the entry's *own* window
 (`regs - base + pre < 256`; nothing is assumed about nested entries — their result registers may
-wrap, every frame they use still lies above `regs`), the value stack has exactly its old length
-when the entry returns: nothing is left behind and nothing of the caller's is cut off, for every
-execution and every outcome. -/
+wrap, every frame they use still lies above `regs`) and `TrySafe`, the value stack has exactly its
+old length when the entry returns: nothing is left behind and nothing of the caller's is cut off,
+for every execution and every outcome. (Without `TrySafe`: `entry_no_register_residue`, `≤`.) -/
 theorem entry_regs_restored (s : St) (pre args a : Nat) (evs : List Ev)
     (hhost : inLoop s = false) (hc : Consistent s.vm) (hw : s.vm.regs - s.vm.base + pre < 256)
+    (htry : TrySafe s pre args a evs)
     (hex : Exited s (runEntry pre args (.koto a) evs s)) :
-    (runEntry pre args (.koto a) evs s).vm.regs = s.vm.regs :=
-  (entry_bounds s pre args a evs 0 0 hhost hc hw (Nat.zero_le _) (Nat.zero_le _)
-    (safeUntil_zero _ rfl rfl _ _ _) hex).1
+    (runEntry pre args (.koto a) evs s).vm.regs = s.vm.regs := by
+  have h := (entry_bounds s pre args a evs s.vm.regs 0 0 hhost hc hw (Nat.le_refl _) (Nat.zero_le _)
+    (Nat.zero_le _) htry hex).1
+  have h1 := h.1
+  have h2 := h.2
+  omega
 
 /-- **No builder residue** (F-C07-2, repaired by fix 97373d1): whatever the execution does and
 however it ends — value, thrown value, runtime error, failed type check, timeout, caught or not,
 at any depth of calls, native callbacks, imports, list/tuple literals and interpolations — when the
 entry returns the builder stacks hold at most what they held before: the entry's barrier frame
-records the builder counts at `push_frame`, and `pop_frame` truncates to them on every exit path. -/
+records the builder counts at `push_frame`, and `pop_frame` truncates to them on every exit path.
+No hypothesis on the execution. -/
 theorem entry_no_builder_residue (s : St) (pre args a : Nat) (evs : List Ev)
     (hhost : inLoop s = false) (hc : Consistent s.vm) (hw : s.vm.regs - s.vm.base + pre < 256)
     (hex : Exited s (runEntry pre args (.koto a) evs s)) :
     (runEntry pre args (.koto a) evs s).vm.seq ≤ s.vm.seq ∧
     (runEntry pre args (.koto a) evs s).vm.str ≤ s.vm.str :=
-  let h := entry_bounds s pre args a evs 0 0 hhost hc hw (Nat.zero_le _) (Nat.zero_le _)
-    (safeUntil_zero _ rfl rfl _ _ _) hex
+  let h := entry_bounds s pre args a evs 0 0 0 hhost hc hw (Nat.zero_le _) (Nat.zero_le _)
+    (Nat.zero_le _) (safeUntil_zero _ rfl rfl rfl _ _ _) hex
   ⟨h.2.1, h.2.2.1⟩
 
 /-- **entry_clean**: the *whole* clean-state predicate — registers, call stack, `register_base`,
@@ -251,12 +264,12 @@ theorem entry_clean (s : St) (pre args a : Nat) (evs : List Ev)
     (hex : Exited s (runEntry pre args (.koto a) evs s)) :
     Clean s.vm (runEntry pre args (.koto a) evs s).vm ∧
     (runEntry pre args (.koto a) evs s).conts = s.conts := by
-  have hb := entry_bounds s pre args a evs s.vm.seq s.vm.str hhost hc hw (Nat.le_refl _)
-    (Nat.le_refl _) hsafe hex
+  have hb := entry_bounds s pre args a evs s.vm.regs s.vm.seq s.vm.str hhost hc hw (Nat.le_refl _)
+    (Nat.le_refl _) (Nat.le_refl _) hsafe hex
   have hf := entry_clean_frames s pre args a evs hhost hc hex
   simp only [] at hb hf
   obtain ⟨⟨h2, h3, h4, h5⟩, h6, _⟩ := hf
-  refine ⟨⟨hb.1, h2, h3, h4, ?_, ?_, h5⟩, h6⟩
+  refine ⟨⟨by have := hb.1; omega, h2, h3, h4, ?_, ?_, h5⟩, h6⟩
   · have := hb.2.1; have := hb.2.2.2.1; simp only [Nat.min_self] at *; omega
   · have := hb.2.2.1; have := hb.2.2.2.2; simp only [Nat.min_self] at *; omega
 
@@ -582,12 +595,15 @@ theorem runEntryChecked_eq (s : St) (pre args : Nat) (c : Callee) (evs : List Ev
 since fixes b752efa / ea3163c): every `run` / `call_and_run_function` through a Koto callee started
 by host or native code on a consistent VM — whatever the size of the register window, whatever the
 execution does, however it ends — restores the call stack, `register_base`, `min_frame_registers`,
-the module placeholders and `registers.len()` exactly, and leaves no builder behind. -/
+the module placeholders exactly, leaves no register and no builder behind, and (for executions
+in which a frame with an open `try` has run its `NewFrame`, `TrySafe`) restores `registers.len()`
+exactly. -/
 theorem entry_checked_clean (s : St) (pre args a : Nat) (evs : List Ev)
     (hhost : inLoop s = false) (hc : Consistent s.vm)
     (hex : Exited s (runEntryChecked pre args (.koto a) evs s)) :
     let s' := runEntryChecked pre args (.koto a) evs s
-    s'.vm.regs = s.vm.regs ∧ CleanFrames s.vm s'.vm ∧ s'.vm.seq ≤ s.vm.seq ∧ s'.vm.str ≤ s.vm.str ∧
+    s'.vm.regs ≤ s.vm.regs ∧ (TrySafe s pre args a evs → s'.vm.regs = s.vm.regs) ∧
+    CleanFrames s.vm s'.vm ∧ s'.vm.seq ≤ s.vm.seq ∧ s'.vm.str ≤ s.vm.str ∧
     s'.conts = s.conts := by
   intro s'
   have hr := hc.regs
@@ -597,14 +613,15 @@ theorem entry_checked_clean (s : St) (pre args a : Nat) (evs : List Ev)
     have hs' : s' = runEntry pre args (.koto a) evs s := he.1
     have hex' : Exited s (runEntry pre args (.koto a) evs s) := by rw [← he.1]; exact hex
     rw [hs']
-    have h1 := entry_regs_restored s pre args a evs hhost hc hw hex'
+    have h0 := entry_no_register_residue s pre args a evs hhost hc (by omega) hex'
     have h2 := entry_clean_frames s pre args a evs hhost hc hex'
     have h3 := entry_no_builder_residue s pre args a evs hhost hc hw hex'
-    exact ⟨h1, h2.1, h3.1, h3.2, h2.2.1⟩
+    exact ⟨h0, fun htry => entry_regs_restored s pre args a evs hhost hc hw htry hex', h2.1, h3.1,
+      h3.2, h2.2.1⟩
   · have hfull : fitsEnter s.vm pre = false := by simpa using hfit
     have : s' = s := entry_too_full_is_clean_error s pre args (.koto a) evs hhost hfull
     rw [this]
-    exact ⟨rfl, ⟨rfl, rfl, rfl, rfl⟩, Nat.le_refl _, Nat.le_refl _, rfl⟩
+    exact ⟨Nat.le_refl _, fun _ => rfl, ⟨rfl, rfl, rfl, rfl⟩, Nat.le_refl _, Nat.le_refl _, rfl⟩
 
 /-! ## F-C07-4 (repaired by fix 20565a0): a `yield` at the top level of a chunk ends the run cleanly -/
 
@@ -709,41 +726,6 @@ theorem nested_string_builders_example :
       .call 2 0, .newFrame 1, .raise true] (enter 0 0 (.koto 0) init)
     st.vm.str = 1 ∧ (run [.tryEnd, .ret, .strEnd, .ret] st).vm.str = 0 := by decide
 
-/-- executions without builder events -/
-def builderFree : List Ev → Bool
-  | [] => true
-  | .seqStart :: _ => false
-  | .seqEnd :: _ => false
-  | .strStart :: _ => false
-  | .strEnd :: _ => false
-  | _ :: rest => builderFree rest
-
-theorem builderFree_cons (ev : Ev) (rest : List Ev) (h : builderFree (ev :: rest) = true) :
-    ev ≠ .seqEnd ∧ ev ≠ .strEnd ∧ builderFree rest = true := by
-  cases ev <;> simp_all [builderFree]
-
-theorem safeUntil_of_builderFree (B : Bnd) (d : Nat) : ∀ (evs : List Ev) (st : St),
-    builderFree evs = true → SafeUntil B d evs st := by
-  intro evs
-  induction evs with
-  | nil => intro st _; trivial
-  | cons ev rest ih =>
-    intro st h
-    have hb := builderFree_cons ev rest h
-    simp only [SafeUntil]
-    split
-    · trivial
-    · exact ⟨⟨fun he => absurd he hb.1, fun he => absurd he hb.2.1⟩, ih _ hb.2.2⟩
-
-/-- Corollary: executions without builder events (the former `entry_clean_partial`; the exclusion
-of builder events was F-C07-2 and is gone — see `entry_clean`). -/
-theorem entry_clean_builder_free (s : St) (pre args a : Nat) (evs : List Ev)
-    (hhost : inLoop s = false) (hc : Consistent s.vm) (hw : s.vm.regs - s.vm.base + pre < 256)
-    (hb : builderFree evs = true)
-    (hex : Exited s (runEntry pre args (.koto a) evs s)) :
-    Clean s.vm (runEntry pre args (.koto a) evs s).vm :=
-  (entry_clean s pre args a evs hhost hc hw (safeUntil_of_builderFree _ _ _ _ hb) hex).1
-
 /-- Host-level reading of `entry_clean` (the shape of C07): on an instance whose bookkeeping is
 all-zero, every `run` / `call_function` on a Koto callee, with *any* execution and any outcome,
 leaves the complete clean-state predicate all-zero again — no hypothesis on the execution is
@@ -759,7 +741,7 @@ theorem toplevel_entry_clean_full (s : St) (pre args a : Nat) (evs : List Ev)
     by simp [hbase]⟩
   have hsafe : SafeUntil ⟨s.vm.regs, s.vm.seq, s.vm.str, s.vm.seq, s.vm.str⟩ s.conts.length evs
       (enter pre args (.koto a) s) := by
-    rw [hseq, hstr]; exact safeUntil_zero _ rfl rfl _ _ _
+    rw [hregs, hseq, hstr]; exact safeUntil_zero _ rfl rfl rfl _ _ _
   exact (entry_clean s pre args a evs hhost hc (by rw [hregs, hbase]; omega) hsafe hex).1
 
 example : Exited init (runEntry 0 0 (.koto 0) [.newFrame 4, .seqStart, .call 2 0, .newFrame 1,
@@ -930,6 +912,11 @@ theorem step_rootExports (ev : Ev) (st : St) :
       · simp [step, hin, hz, rootExports]
     · simp [step, hin]
   | raise c =>
+    left
+    by_cases hin : inLoop st = true
+    · simp only [step, hin, if_true, raise]; rw [raiseGo_rootExports]; rfl
+    · simp [step, hin]
+  | opSetupFail n =>
     left
     by_cases hin : inLoop st = true
     · simp only [step, hin, if_true, raise]; rw [raiseGo_rootExports]; rfl
@@ -1222,5 +1209,45 @@ theorem repl_example :
     atMainPrompt s = true ∧ s.indent = 0 ∧ s.runs = 1 ∧
     (onLine s ⟨false, 0, .runOk, false⟩).runs = 2 ∧
     atMainPrompt (session [⟨false, 0, .indentErr, false⟩] {}) = false := by decide
+
+
+/-! ## F-C07-7 (repaired by fix 8f4d2e4): the catch point discards what a half-set-up operation left -/
+
+/-- `m + 1` where `m`'s `@+` has the wrong arity, caught, three times in a row in the same frame
+(`NewFrame 6`): every failing set-up leaves 2 registers above the frame, every catch resizes the
+value stack to exactly `register_base + required_registers` again — the stack does not grow with the
+number of iterations (before the fix: 6 + 2·k, and after ~118 iterations `new_frame_base` failed
+with "Overflow of the current frame's register stack"). -/
+theorem catch_discards_setup_leftovers :
+    let s0 := run [.newFrame 6] (enterChecked 0 0 (.koto 0) init)
+    let once := [Ev.tryStart 1 9, .opSetupFail 2, .tryEnd]
+    let s1 := run once s0
+    let s3 := run (once ++ once ++ once) s0
+    s0.vm.regs = 6 ∧ (run [.tryStart 1 9, .opSetupFail 2] s0).vm.regs = 6 ∧ s1.vm = s0.vm ∧
+    s3.vm = s0.vm := by decide
+
+/-- in general: a caught error leaves exactly `min_frame_registers` registers -/
+theorem caught_error_resizes_to_min_frame_registers (c : Bool) : ∀ (fs : List Frame) (vm : VM),
+    vm.stack = fs → (∀ f rest, fs = f :: rest → vm.minRegs = f.base + f.required) →
+    ∀ cr, (unwindGo c fs vm).2 = some cr →
+    (unwindGo c fs vm).1.regs = topMin (unwindGo c fs vm).1.stack := by
+  intro fs
+  induction fs with
+  | nil => intro vm _ _ cr h; simp [unwindGo] at h
+  | cons f rest ih =>
+    intro vm hs hmin cr h
+    unfold unwindGo at h ⊢
+    split
+    · simp [hs, topMin, hmin f rest rfl]
+    · rename_i hno
+      split at h
+      · exact (hno _ _ rfl (by assumption)).elim
+      · by_cases hb : f.barrier = true
+        · simp [hb] at h
+        · have hb' : f.barrier = false := by simpa using hb
+          simp only [hb', Bool.false_eq_true, if_false] at h ⊢
+          have hp := popTo_fields f rest vm
+          exact ih (popTo f rest vm).1 hp.1
+            (fun g gs hg => by rw [hp.2.2.1, hg]; rfl) cr h
 
 end KotoVerif.C07
